@@ -159,17 +159,17 @@ pub fn exec(op: &str, a: &[String]) -> Option<Reply> {
 // ---------------------------------------------------------------------------------------------
 // call generator
 
-const K_BYTES: u16 = 1 << 1;
-const K_INTEGER: u16 = 1 << 2;
-const K_FLOAT: u16 = 1 << 3;
-const K_BOOLEAN: u16 = 1 << 4;
-const K_OBJECT: u16 = 1 << 5;
-const K_ARRAY: u16 = 1 << 6;
-const K_TIMESTAMP: u16 = 1 << 7;
-const K_REGEX: u16 = 1 << 8;
-const K_NULL: u16 = 1 << 9;
+pub const K_BYTES: u16 = 1 << 1;
+pub const K_INTEGER: u16 = 1 << 2;
+pub const K_FLOAT: u16 = 1 << 3;
+pub const K_BOOLEAN: u16 = 1 << 4;
+pub const K_OBJECT: u16 = 1 << 5;
+pub const K_ARRAY: u16 = 1 << 6;
+pub const K_TIMESTAMP: u16 = 1 << 7;
+pub const K_REGEX: u16 = 1 << 8;
+pub const K_NULL: u16 = 1 << 9;
 
-fn literal_pool(kind: u16) -> &'static [&'static str] {
+pub fn literal_pool(kind: u16) -> &'static [&'static str] {
     match kind {
         K_BYTES => &[
             "\"\"", "\"a\"", "\"abc\"", "\"%ba\"", "\"12\"", "\"-7\"", "\"héllo wörld\"", "\"2021-01-01T00:00:00Z\"", "\"{\\\"a\\\":1}\"",
@@ -191,7 +191,7 @@ fn literal_pool(kind: u16) -> &'static [&'static str] {
     }
 }
 
-fn runtime_pool(kind: u16, rng: &mut Rng) -> Value {
+pub fn runtime_pool(kind: u16, rng: &mut Rng) -> Value {
     let f = |x: f64| Value::Float(ordered_float::NotNan::new(x).unwrap());
     match kind {
         K_BYTES => match rng.below(8) {
@@ -229,11 +229,11 @@ fn runtime_pool(kind: u16, rng: &mut Rng) -> Value {
     }
 }
 
-fn kinds_of(mask: u16) -> Vec<u16> {
+pub fn kinds_of(mask: u16) -> Vec<u16> {
     [K_BYTES, K_INTEGER, K_FLOAT, K_BOOLEAN, K_OBJECT, K_ARRAY, K_TIMESTAMP, K_REGEX, K_NULL].into_iter().filter(|k| mask & k != 0).collect()
 }
 
-fn closure_suffix(name: &str) -> &'static str {
+pub fn closure_suffix(name: &str) -> &'static str {
     match name {
         "for_each" => " -> |_k, _v| { null }",
         "filter" => " -> |_k, _v| { true }",
